@@ -1109,12 +1109,7 @@ def build_conf_enum():
     return os.path.join(vc.cached_build("confenum", vc.repo_sources() + [hsrc], vc.DEFS, b), "conf_enum")
 
 
-def run_enum(tier, root, out):
-    """Exhaustive crash-point enumeration (DESIGN 7, C14): every prefix, single-bit flip, single-byte deletion and
-    grammar-token insertion at every position of every corpus file, on top of each of the 4 built-in prior states."""
-    binary = build_conf_enum()
-    d = os.path.join(root, "enum")
-    os.makedirs(d, exist_ok=True)
+def enum_paths(tier, d):
     paths = []
     total = 0
     for j, txt in enumerate(corpus_files()):
@@ -1125,6 +1120,41 @@ def run_enum(tier, root, out):
             fh.write(txt.encode("latin-1"))
         paths.append(fp)
         total += len(txt)
+    return paths, total
+
+
+def eval_enum_case(case, ctx):
+    """Re-run one shard of the crash-point enumeration (deterministic) and report what it reports."""
+    res = CaseResult()
+    d = os.path.join(ctx["root"], "enumreplay")
+    shutil.rmtree(d, ignore_errors=True)
+    os.makedirs(d)
+    paths, _ = enum_paths(case.get("tier", "quick"), d)
+    env = dict(os.environ)
+    env["ASAN_OPTIONS"] = "detect_leaks=0:abort_on_error=0"
+    sd = os.path.join(d, "s")
+    os.makedirs(sd)
+    p = subprocess.run([build_conf_enum(), str(case["shard"]), str(case["nshards"]), sd] + paths, stdout=subprocess.PIPE, stderr=subprocess.PIPE, env=env)
+    if p.returncode != 0 or os.path.exists(os.path.join(sd, "enum-fail-%d.bin" % case["shard"])):
+        e = p.stderr.decode("latin-1")
+        msg = "enumeration shard ended with status %d" % p.returncode
+        for ln in e.splitlines():
+            if "ERROR: AddressSanitizer" in ln or "runtime error" in ln or "ORACLE-FAIL" in ln or "Assertion" in ln:
+                msg = ln.strip()[:300]
+                break
+        sig = "failed_load_changed_tree" if "configuration changed" in msg else ("failed_load_notified" if "hooks ran" in msg else "memory_error")
+        res.violations.append(V("C14", sig, "crash-point enumeration, shard %d of %d: %s" % (case["shard"], case["nshards"], msg)))
+    shutil.rmtree(d, ignore_errors=True)
+    return res
+
+
+def run_enum(tier, root, out):
+    """Exhaustive crash-point enumeration (DESIGN 7, C14): every prefix, single-bit flip, single-byte deletion and
+    grammar-token insertion at every position of every corpus file, on top of each of the 4 built-in prior states."""
+    binary = build_conf_enum()
+    d = os.path.join(root, "enum")
+    os.makedirs(d, exist_ok=True)
+    paths, total = enum_paths(tier, d)
     env = dict(os.environ)
     env["ASAN_OPTIONS"] = "detect_leaks=0:abort_on_error=0"
     procs = []
@@ -1153,11 +1183,13 @@ def run_enum(tier, root, out):
                 data = fh.read()
             msg = "enumerated candidate"
             for ln in e.splitlines():
-                if "ERROR: AddressSanitizer" in ln or "runtime error" in ln or "ORACLE-FAIL" in ln:
+                if "ERROR: AddressSanitizer" in ln or "runtime error" in ln or "ORACLE-FAIL" in ln or "Assertion" in ln:
                     msg = ln.strip()[:300]
                     break
             sig = "failed_load_changed_tree" if "configuration changed" in msg else ("failed_load_notified" if "hooks ran" in msg else "memory_error")
-            out["fails"].append({"case": {"mode": "fuzz", "input_hex": data.hex()}, "sig": sig, "msg": msg})
+            # the enumerator keeps one process (and so one live tree) per shard: what fails may depend on the candidates
+            # that came before, so the replayable unit is the shard, not the single candidate
+            out["fails"].append({"case": {"mode": "enum", "shard": i, "nshards": vc.NCPU, "tier": tier, "last_candidate_hex": data.hex()[:2000]}, "sig": sig, "msg": msg})
         elif not got or pr.returncode != 0:
             raise vc.MachineryError("conf_enum shard %d ended with status %s and no failing input: %s" % (i, pr.returncode, e[-500:]))
     n = kinds.pop("cases", 0)
@@ -1248,4 +1280,6 @@ _evaluate_c = evaluate
 def evaluate(case, ctx):   # noqa: F811
     if isinstance(case, dict) and case.get("mode") == "fuzz":
         return eval_fuzz_case(case, ctx)
+    if isinstance(case, dict) and case.get("mode") == "enum":
+        return eval_enum_case(case, ctx)
     return _evaluate_c(case, ctx)
